@@ -118,10 +118,10 @@ PROPS = {
                 'the specification\'s reconstruction for EVERY inflated stream, row count, pixel size and row length, with the same errors for short streams and undefined filter bytes, for both predictor '
                 'selections; the row length is a whole number of filter units for all 15 legal pairs and every width. Composes C14 (per-row filters, regenerated predictors) and C15 (Adam7 placement). The output buffer '
                 'of zlib.rs is modelled (Model/ZlibBuf.v over the regenerated LOOKBACK_SIZE / COMPACT_FACTOR / CHUNK_BUFFER_SIZE) and proved to deliver every produced byte exactly once in order and to keep the most recent min(total, 32768) bytes available for back-references for every split of the output over calls. Inflate itself by '
-                'contract; chunk framing by the L0 machine; unfiltering_buffer.rs tied by the correspondence check on every run.',
+                'contract; chunk framing by the L0 machine; unfiltering_buffer.rs is modelled (Model/UnfiltBuf.v) and proved to refine the pipeline\'s row loop for every way the inflater output arrives and every compaction; its cursors are compared with the real buffer (hook) after every row call.',
   'level_note': 'Trusted: Coq kernel; translator (Paeth predictors, filter-byte decoding, Adam7 tables); hand models of filter.rs loops / adam7.rs / the row loop of mod.rs; fdeflate implements RFC 1950/1951 '
-                '(contract; reference inflater Base/Inflate.v in the correspondence); the zlib.rs buffer model is tied by comparing its cursors with the real ZlibStream after every decompress call (C06 check, hook); unfiltering_buffer.rs is modelled only as "delivers the inflated bytes in order" and checked by '
-                'differential execution (large images, far back-references, aligned block boundaries).',
+                '(contract; reference inflater Base/Inflate.v in the correspondence); the zlib.rs buffer model is tied by comparing its cursors with the real ZlibStream after every decompress call (C06 check, hook); the unfiltering_buffer.rs model is tied the same way (cursors after every row call, hook); '
+                'large images, far back-references and aligned block boundaries are decoded differentially.',
   'gen_items': ['filter_paeth_decode', 'RowFilter::from_u8', 'unfilter_first_row_subst', 'Adam7Iterator::init_pass', 'expand_adam7_bits', 'expand_pass.store', 'zlib.constants'],
   'model_name': 'Model/Pipeline.v decode_frame (reference inflate -> unfilter_rows -> expand_pass)',
   'rule': 'cases = images built by the independent reference writer: 15 colour/depth pairs x {plain, Adam7} x widths 1..9 and random to 40 (70) x heights x per-row filter vectors (fixed 0-4, random) x 7 deflate '
@@ -313,7 +313,7 @@ PROPS = {
                 'remaining budget <= L; none of the bounds mentions declared dimensions, chunk lengths, chunk counts or inflated sizes. The model\'s budget is compared with Limits::bytes of the real decoder (hook) on every run. A second theorem bounds the inflater output buffer of zlib.rs (model Model/ZlibBuf.v over the regenerated LOOKBACK_SIZE, COMPACT_FACTOR, CHUNK_BUFFER_SIZE): never more than 2*(4*32768+32768) = 327680 bytes however much the stream inflates to; its cursors are compared with the real ZlibStream (hook) after every decompress call. Real heap use (Vec growth, '
                 'unfiltering and row buffers, fdeflate tables, String conversion) is a runtime fact no Gallina model exhibits: it is measured by a counting global allocator on hostile inputs and must stay below 128*L + 2 MiB.',
   'level_note': 'Trusted: Coq kernel; hand model Model/Stream.v tied by differential execution (events: C04/C10/C11/C16; budget: here); counting allocator harness/src/alloc.rs (requested sizes, not allocator slack); the constants 128 and 2 MiB are fixed in '
-                'harness/src/c06.rs with their derivation (minimal tEXt chunk: <= 72.5 held bytes per accounted byte; measured 28-31). Not modelled: unfiltering_buffer.rs, Reader scratch buffers, text_metadata decompression (C20).',
+                'harness/src/c06.rs with their derivation (minimal tEXt chunk: <= 72.5 held bytes per accounted byte; measured 28-31). Not modelled: Reader scratch buffers, text_metadata decompression (C20).',
   'gen_items': ['zlib.constants', 'CHUNK_BUFFER_SIZE'],
   'model_name': 'Model/Stream.v budget / c_cap / reserve / reserve_current_chunk (l0_budget); Model/ZlibBuf.v (zb_cursor_run)',
   'rule': 'cases = (a) 260 (1500) small valid / ancillary-rich / mutated files x limits {0,5,40,200,1000,32768,40000,64 MiB} x options x delivery schedules: remaining Limits::bytes (hook) vs the model\'s budget; (a2) 11 (43) images incl. interlaced, far-match and over-long streams fed in pieces of 33 B .. 1 MiB: (out_buffer.len, out_pos, read_pos) of the real ZlibStream after every decompress call vs Model/ZlibBuf.v; (b) hostile scenarios - IDAT bombs (60 MB / 400 MB '
